@@ -70,8 +70,7 @@ class Analysis:
             return None
 
         out = {}
-        init = self.p.func(f"{CLS}.__init__")
-        for n in ast.walk(init.node):
+        for n in [x for f_ in self.p.ctor_funcs(CLS) for x in ast.walk(f_.node)]:
             if isinstance(n, ast.Assign) and len(n.targets) == 1 and isinstance(n.targets[0], ast.Attribute) and isinstance(n.targets[0].value, ast.Name) \
                     and n.targets[0].value.id == "self" and isinstance(n.value, ast.Dict) and n.value.keys \
                     and all(isinstance(k, ast.Constant) for k in n.value.keys):
